@@ -728,7 +728,7 @@ func init() {
 			}
 			thorough := r.Tier == "thorough"
 			menu := c15Menu()
-			r.Rule = fmt.Sprintf("the gts binary built from the tree on a multi-record input of %d generated records (12 uniquely labelled, complement-invariant residues; tables with overlapping, nested, duplicate, unsorted, joined and complement-strand features; linear and circular) x every locator assembled from {every point, ranges, complement ranges, selectors matching 0..3 features} x modifiers {none,^,$,^..$,^+1..$-1,^-1..$+1,^+1..^+2,^..^} kept in range x commands {delete, delete -e, insert, insert -e, infix, infix -e, split, rotate, extract, extract -v, extract with two locators} x {-F genbank, -F fasta}; oracle on where each label ends up; distinct key = (command, options, locators); non-trivial = some record has >=2 located regions or a complement region", len(menu))
+			r.Rule = fmt.Sprintf("the gts binary built from the tree on a multi-record input of %d generated records (12 uniquely labelled, complement-invariant residues; tables with overlapping, nested, duplicate, unsorted, joined and complement-strand features; linear and circular) x every locator assembled from {every point, ranges, complement ranges, selectors matching 0..3 features} x modifiers {none,^,$,^..$,^+1..$-1,^-1..$+1,^+1..^+2,^..^} kept in range x commands {delete, delete -e, insert, insert -e, infix, infix -e, split, rotate, extract, extract -v, extract with two locators} x {-F genbank, -F fasta}; each invocation on the whole multi-record stream and on every record as a stream of its own; oracle on where each label ends up; distinct key = (command, options, locators); non-trivial = some record has >=2 located regions or a complement region", len(menu))
 			var specs []string
 			for p := 1; p <= 12; p++ {
 				if thorough || p == 1 || p == 4 || p == 7 || p == 12 {
@@ -789,6 +789,19 @@ func init() {
 						}
 					}
 					r.Fail(engine.Failure{Sig: sig, Case: c, Detail: detail, Size: len(mustJSON(c))})
+				} else {
+					// every record also as a stream of its own (it is then the last record of its stream: what a command
+					// still owes its output at the end of the input shows only there)
+					for i := range menu {
+						c1 := c
+						c1.Records = []int{i}
+						r.Evals.Add(1)
+						r.Transitions.Add(1)
+						if ok1, s1, d1 := c15Eval(c1); !ok1 {
+							r.Fail(engine.Failure{Sig: s1, Case: c1, Detail: d1, Size: len(mustJSON(c1))})
+							break
+						}
+					}
 				}
 				if idx%211 == 0 && r.WantSample() {
 					mu.Lock()
